@@ -104,6 +104,24 @@ def solve(assertions, rlimit=RLIMIT_PROVE, want_model=True, use_cvc5=True, tacti
                     break
             except z3.Z3Exception:
                 continue
+    if r == z3.unknown and rlimit >= RLIMIT_PROVE:
+        # the resource count a query needs depends on the solver state left by the queries the worker process ran before
+        # it (which units a worker gets is scheduling-dependent): an `unknown` is retried in FRESH contexts with other
+        # seeds and a larger budget.  Only `unsat` is taken from a retry (a proof is a proof in any context).
+        for seed, factor in ((11, 2), (23, 3)):
+            try:
+                c2 = z3.Context()
+                s2 = z3.Solver(ctx=c2)
+                s2.set("rlimit", rlimit * factor)
+                s2.set("timeout", TIMEOUT_MS)
+                s2.set("random_seed", seed)
+                s2.add(*[a.translate(c2) for a in assertions])
+                STATS["z3_queries"] += 1
+                if s2.check() == z3.unsat:
+                    r, backend = z3.unsat, f"z3[fresh-context,seed={seed}]"
+                    break
+            except z3.Z3Exception:
+                continue
     STATS["z3_time"] += time.time() - t0
     if r == z3.unsat:
         return "unsat", None, backend, time.time() - t0
